@@ -1448,6 +1448,22 @@ impl<A: Ar> Exec<A> {
         let pre_cap = self.a().capacity();
         let pre_bytes = self.mem()[..pre.allocated as usize].to_vec();
         let cow_file_before = if self.cow && !self.ro { self.path.as_ref().and_then(|p| std::fs::read(p).ok()) } else { None };
+        if self.cfg.backend == Backend::Vec && (n as usize) > pre_cap && (n as usize) <= (1 << 20) {
+            // The heap is a source of nondeterminism of its own: what a fresh heap block contains depends on what
+            // the process freed before. Take it under control — a block of the size and alignments the new buffer
+            // can have is filled with a pattern and freed right before the call, so that a buffer that is not
+            // zeroed shows the pattern in every execution, the replay included.
+            for align in [8usize, 16, 64] {
+                unsafe {
+                    let l = std::alloc::Layout::from_size_align_unchecked(n as usize, align);
+                    let p = std::alloc::alloc(l);
+                    if !p.is_null() {
+                        std::ptr::write_bytes(p, 0xA5, n as usize);
+                        std::alloc::dealloc(p, l);
+                    }
+                }
+            }
+        }
         let r = {
             let a = self.arenas[idx].as_mut().unwrap();
             a.truncate_(n as usize)
@@ -1548,6 +1564,14 @@ impl<A: Ar> Exec<A> {
         if mem[..m] != pre_bytes[..m] {
             let i = (0..m).find(|i| mem[*i] != pre_bytes[*i]).unwrap();
             self.v("C18", "bytes_changed", format!("{}truncate({}) changed byte {} below allocated ({})", tag, n, i, pre.allocated));
+        }
+        // C16, cross-backend byte equality: the bytes a *growing* truncate adds are zero on an anonymous-map arena by
+        // the guarantee of the OS (fresh mapping), so a Vec-backed arena driven by the same history must show
+        // zeroes there too. (The cross-backend histories themselves leave truncate out, see diff.rs.)
+        if self.cfg.backend == Backend::Vec && mem.len() > pre_cap {
+            if let Some(k) = (pre_cap..mem.len()).find(|k| mem[*k] != 0) {
+                self.v("C16", "backend_bytes", format!("[grown by truncate] truncate({}) grew a Vec-backed arena from {} to {} bytes and byte {} of the new region is {:#x}; the same history on an anonymous map leaves zero there", n, pre_cap, mem.len(), k, mem[k]));
+            }
         }
         self.obs("ok".into(), None, None)
     }
